@@ -8,14 +8,19 @@ adjoint) and `H̃ = U† H U`.  Instances proved here:
   * `C13_scale`: `H(λ) ↦ H(cλ)`, `c` real (each parameter: compose), every order `n` of the outputs is multiplied by `c^{|n|}` (`rescaleS`);
   * `C13_permute`: relabelling the multi-orders by any degree-preserving additive equivalence of the exponent lattice — in particular a permutation of
     the parameters (`Finsupp.domCongr`) — relabels every order of the outputs (`permS`).
-Merging two parameters, padding with a vanishing parameter and `λ ↦ λ^p` are ring homomorphisms of the same kind between series in different numbers of
-variables; their instances are NOT yet proved in Lean (they need the re-indexing of double sums) — for them this property rests on the generic transport
-theorem plus the correspondence: `harness/covar_corr.py` checks all five relations (and the C15 ones) between pairs of real runs, `harness/format_corr.py` the
-key / symbol-order bookkeeping of the input normalisation.  PARTIAL in that sense; the full statement is the property text.
+  * `C13_reindex`: re-indexing along ANY injective additive map `φ` of multi-orders that does not lower the total degree (push-forward `pushS`, a ring
+    homomorphism between series in possibly different numbers of variables): order `φ m` of the outputs of the re-indexed problem is order `m` of the original,
+    orders outside the image of `φ` vanish.  Instances: `C13_power_substitution` (`λ ↦ λ^r`: `m ↦ r·m`) and `C13_pad` (a vanishing extra parameter:
+    `m ↦ (m, 0)`) — "only relabels orders".
+Merging two parameters (`(a, b) ↦ a + b`, not injective: order `n` is the SUM over `n₁ + n₂ = n`) is a ring homomorphism of the same kind whose instance is NOT yet
+proved in Lean (re-indexing of double sums) — for it this property rests on the generic transport theorem plus the correspondence: `harness/covar_corr.py` checks all five
+relations (and the C15 ones) between pairs of real runs, `harness/format_corr.py` and `harness/taylor_corr.py` the key / symbol-order / Taylor bookkeeping of the input
+normalisation.  PARTIAL in that sense; the full statement is the property text.
 -/
 import PymaVerif.Proofs.Covariance2
 import PymaVerif.Proofs.Covariance3
 import PymaVerif.Proofs.CoreU
+import PymaVerif.Proofs.Covariance5
 
 namespace Pyma
 namespace Props
@@ -45,6 +50,30 @@ theorem C13_permute (p : Problem K) (ts : List (List ℕ × Mat K)) (hp : p.Acce
     (hH : (p.withTerms ts).sr "H" = permS E (p.sr "H")) :
     (p.withTerms ts).sr "U'" = permS E (p.sr "U'") :=
   Problem.C13_permute p ts hp hq h2 E hdeg hkept hH
+
+/-- **C13** re-indexing of orders along an injective additive map that does not lower the degree -/
+theorem C13_reindex (p : Problem K) (k' : ℕ) (ts : List (List ℕ × Mat K)) (hp : p.Accepted) (hq : (p.reparam k' ts).Accepted) (h2 : (2 : K) ≠ 0)
+    (R : Reindex (Fin p.nparams) (Fin k')) (hdeg : ∀ m, m.degree ≤ (R.φ m).degree)
+    (hkept : ∀ a b : Fin p.d, (p.reparam k' ts).keptE a.val b.val = p.keptE a.val b.val)
+    (hH : (p.reparam k' ts).sr "H" = R.pushS (p.sr "H")) :
+    (p.reparam k' ts).sr "U'" = R.pushS (p.sr "U'") :=
+  Problem.C13_reindex p k' ts hp hq h2 R hdeg hkept hH
+
+/-- **C13** substituting `λ ↦ λ^r` only relabels orders: order `r·m` of the new outputs is order `m` of the old ones, all other orders vanish -/
+theorem C13_power_substitution (p : Problem K) (ts : List (List ℕ × Mat K)) (hp : p.Accepted) (hq : (p.reparam p.nparams ts).Accepted)
+    (h2 : (2 : K) ≠ 0) (r : ℕ) (hr : 0 < r)
+    (hkept : ∀ a b : Fin p.d, (p.reparam p.nparams ts).keptE a.val b.val = p.keptE a.val b.val)
+    (hH : (p.reparam p.nparams ts).sr "H" = (powerReindex r hr).pushS (p.sr "H")) :
+    (p.reparam p.nparams ts).sr "U'" = (powerReindex r hr).pushS (p.sr "U'") :=
+  Problem.C13_reindex p p.nparams ts hp hq h2 (powerReindex r hr) (powerReindex_degree r hr) hkept hH
+
+/-- **C13** adding a vanishing perturbation only relabels orders: order `(m, 0)` is order `m`, orders with a non-zero last component vanish -/
+theorem C13_pad (p : Problem K) (ts : List (List ℕ × Mat K)) (hp : p.Accepted) (hq : (p.reparam (p.nparams + 1) ts).Accepted)
+    (h2 : (2 : K) ≠ 0)
+    (hkept : ∀ a b : Fin p.d, (p.reparam (p.nparams + 1) ts).keptE a.val b.val = p.keptE a.val b.val)
+    (hH : (p.reparam (p.nparams + 1) ts).sr "H" = (padReindex p.nparams).pushS (p.sr "H")) :
+    (p.reparam (p.nparams + 1) ts).sr "U'" = (padReindex p.nparams).pushS (p.sr "U'") :=
+  Problem.C13_reindex p (p.nparams + 1) ts hp hq h2 (padReindex p.nparams) (padReindex_degree p.nparams) hkept hH
 
 /-- a permutation of the parameters is such an equivalence -/
 theorem C13_permutation_preserves_degree {σ : Type} [DecidableEq σ] [Fintype σ] (e : σ ≃ σ) (m : σ →₀ ℕ) : (Finsupp.domCongr e m).degree = m.degree :=
